@@ -66,7 +66,9 @@ def hasAncestorOfType (t : List Char) (ch : Chain) : Bool := ch.any (fun l => l.
 def liftToType (t : List Char) : Location → Chain → R (Location × Chain)
   | _, [] => throw .NoSuchAncestor
   | c, l0 :: rest =>
-    if ¬ hasAncestorOfType t (l0 :: rest) then throw .NoSuchAncestor
+    -- `_EmptyLocation.first_ancestor_of_type` raises EmptyLocationException (an EmptyLocation has no parent)
+    if c == .empty then throw .EmptyLocation
+    else if ¬ hasAncestorOfType t (l0 :: rest) then throw .NoSuchAncestor
     else if l0.type == t then pure (c, l0 :: rest)
     else match rest with
       | [] => throw .NullParent          -- unreachable: an ancestor of type t exists above
